@@ -462,6 +462,8 @@ def check_streams(ctx, component, items):
     dec = c02.tdecode_many([out for _, _, _, out in todo])
     n_ok = 0
     for (ln, ok_calls, exp, out), d in zip(todo, dec):
+        if oracle_silent(ctx, component, ln, d):
+            continue
         if d is None:
             if out == b"" and exp == "":
                 n_ok += 1
